@@ -441,3 +441,176 @@ def write_evidence(prop, ev):
 
 def digest(obj):
     return hashlib.sha256(json.dumps(obj, sort_keys=True, default=str).encode()).hexdigest()[:12]
+
+
+# ------------------------------------------------------------------ implementation objects -> plain data -> Coq SArr literals
+EXC_ENUM = {"ValueError", "IndexError", "TypeError", "ZeroDivisionError", "RuntimeError",
+            "NotImplementedError", "OverflowError"}
+
+
+def val_token(v):
+    """an element value as an integer: integers (and integer-valued floats, bools) stand for
+    themselves; any other float/complex is an opaque token 2^70 + bit pattern (so NaN == NaN
+    and -0.0 != 0.0, like the code's `equivalent`)."""
+    import struct
+
+    import numpy as np
+    if isinstance(v, (bool, np.bool_)):
+        return int(v)
+    if isinstance(v, (int, np.integer)):
+        return int(v)
+    if isinstance(v, (complex, np.complexfloating)):
+        c = complex(v)
+        if c.imag == 0 and c.real == int(c.real) and not (c.real == 0 and str(c.real).startswith("-")):
+            return int(c.real)
+        return (1 << 70) + (struct.unpack("<Q", struct.pack("<d", c.real))[0] ^ (struct.unpack("<Q", struct.pack("<d", c.imag))[0] * 3 & ((1 << 64) - 1)))
+    f = float(v)
+    if f == f and f not in (float("inf"), float("-inf")) and f == int(f) and not (f == 0 and str(f).startswith("-")):
+        return int(f)
+    return (1 << 70) + struct.unpack("<Q", struct.pack("<d", f))[0]
+
+
+def plain(obj):
+    """Run inside the implementation worker: turn a result (sparse array, ndarray, scalar,
+    exception instance) into a JSON-able dict holding its concrete representation."""
+    import numpy as np
+    try:
+        import scipy.sparse as sps
+    except ImportError:
+        sps = None
+    import sparse
+    if isinstance(obj, BaseException):
+        n = type(obj).__name__
+        return {"k": "exc", "exc": n if n in EXC_ENUM else "OtherError", "cls": n, "msg": str(obj)[:160]}
+    if isinstance(obj, sparse.COO):
+        return {"k": "coo", "shape": [int(d) for d in obj.shape],
+                "coords": [[int(v) for v in col] for col in np.asarray(obj.coords).T.tolist()] if obj.ndim else [[] for _ in range(obj.nnz)],
+                "data": [val_token(v) for v in obj.data], "fill": val_token(obj.fill_value),
+                "dtype": str(obj.dtype), "idx_dtype": str(obj.coords.dtype)}
+    if isinstance(obj, sparse.GCXS):
+        ca = obj.compressed_axes
+        return {"k": "gcxs", "shape": [int(d) for d in obj.shape], "caxes": [] if ca is None else [int(a) for a in ca],
+                "data": [val_token(v) for v in obj.data], "indices": [int(v) for v in np.asarray(obj.indices).reshape(-1)],
+                "indptr": [int(v) for v in np.asarray(obj.indptr).reshape(-1)] if obj.indptr is not None and len(np.shape(obj.indptr)) else [],
+                "fill": val_token(obj.fill_value), "dtype": str(obj.dtype), "cls": type(obj).__name__,
+                "idx_dtype": str(np.asarray(obj.indices).dtype)}
+    if isinstance(obj, sparse.DOK):
+        items = sorted(((tuple(int(i) for i in k), val_token(v)) for k, v in obj.data.items()))
+        return {"k": "dok", "shape": [int(d) for d in obj.shape], "items": [[list(k), v] for k, v in items],
+                "fill": val_token(obj.fill_value), "dtype": str(obj.dtype)}
+    if sps is not None and sps.issparse(obj):
+        d = np.asarray(obj.todense())
+        return {"k": "dense", "shape": list(d.shape), "flat": [val_token(v) for v in d.reshape(-1)], "dtype": str(d.dtype), "cls": "scipy"}
+    if isinstance(obj, np.ndarray):
+        return {"k": "dense", "shape": [int(d) for d in obj.shape], "flat": [val_token(v) for v in obj.reshape(-1)], "dtype": str(obj.dtype)}
+    if isinstance(obj, (int, float, complex, bool, np.generic)):
+        return {"k": "scalar", "v": val_token(obj), "dtype": str(getattr(obj, "dtype", type(obj).__name__))}
+    return {"k": "other", "repr": repr(obj)[:120]}
+
+
+def dense_of(p):
+    """(shape, flat) dense meaning of a plain() dict computed independently in Python (for messages)."""
+    return p.get("shape"), p.get("flat")
+
+
+def sarr_lit(p):
+    """Coq literal (type sarr of Corr/SArr.v) of a plain() dict or a run_impl failure marker."""
+    if p is None or p.get("hang"):
+        return "SHang"
+    if "crash" in p:
+        return "(SExc OtherError)"
+    k = p.get("k")
+    if k is None and "exc" in p:
+        n = p["exc"]
+        return f"(SExc {n if n in EXC_ENUM else 'OtherError'})"
+    if k == "exc":
+        return f"(SExc {p['exc']})"
+    if k == "coo":
+        return ("(SCoo (mkCOO %s %s %s %s))" % (vlist(p["shape"]), vlist(p["coords"], vlist), vlist(p["data"]), vZ(p["fill"])))
+    if k == "gcxs":
+        return ("(SGcxs (mkGCXS %s %s %s %s %s %s))" % (vlist(p["shape"]), vlist(p["caxes"]), vlist(p["data"]),
+                                                      vlist(p["indices"]), vlist(p["indptr"]), vZ(p["fill"])))
+    if k == "dok":
+        return "(SDok %s %s %s)" % (vlist(p["shape"]), vlist(p["items"], lambda kv: vpair(vlist(kv[0]), vZ(kv[1]))), vZ(p["fill"]))
+    if k == "dense":
+        return "(SDense (mkDense %s %s))" % (vlist(p["shape"]), vlist(p["flat"]))
+    if k == "scalar":
+        return f"(SScalar {vZ(p['v'])})"
+    return "SOther"
+
+
+def dense_lit(arr):
+    """Coq `dense Z` literal of a NumPy array (integer-valued)."""
+    import numpy as np
+    a = np.asarray(arr)
+    return "(mkDense %s %s)" % (vlist([int(d) for d in a.shape]), vlist([val_token(v) for v in a.reshape(-1)]))
+
+
+# ------------------------------------------------------------------ shared input generator
+def gen_array_spec(rng, ndim=None, extents=(0, 1, 2, 3), fills=(0,), formats=("coo",), density=None,
+                   values=(-3, -2, -1, 1, 2, 3, 4, 5), min_ndim=0, max_ndim=4, shape=None):
+    """A small random sparse array described by plain data (deterministic in rng):
+    {shape, coords (sorted list of index tuples), data, fill, format, caxes}.  Data never equals
+    the fill; patterns range over empty / single / partial / full."""
+    import itertools
+    if shape is None:
+        if ndim is None:
+            ndim = rng.randint(min_ndim, max_ndim)
+        shape = [rng.choice(extents) for _ in range(ndim)]
+    shape = list(shape)
+    ndim = len(shape)
+    fill = rng.choice(fills)
+    allidx = list(itertools.product(*[range(d) for d in shape]))
+    if density is None:
+        density = rng.choice([0.0, 0.15, 0.4, 0.7, 1.0])
+    if density >= 1.0:
+        pos = allidx
+    else:
+        pos = [ix for ix in allidx if rng.random() < density]
+    vals = [v for v in values if v != fill]
+    data = [rng.choice(vals) for _ in pos]
+    fmt = rng.choice(formats)
+    caxes = None
+    if fmt == "gcxs" and ndim >= 2:
+        k = rng.randint(1, ndim - 1)
+        caxes = rng.sample(range(ndim), k)
+        if rng.random() < 0.7:
+            caxes.sort()
+    return {"shape": shape, "coords": [list(p) for p in pos], "data": data, "fill": fill, "format": fmt, "caxes": caxes}
+
+
+def build_array(spec, dtype=None, idx_dtype=None):
+    """worker side: the sparse array described by a spec"""
+    import numpy as np
+    import sparse
+    shape = tuple(spec["shape"])
+    nd = len(shape)
+    dt = np.dtype(dtype or spec.get("dtype", "int64"))
+    coords = np.array(spec["coords"], dtype=np.intp).reshape(-1, nd).T if spec["coords"] else np.zeros((nd, 0), dtype=np.intp)
+    if idx_dtype:
+        coords = coords.astype(idx_dtype)
+    data = np.array(spec["data"], dtype=dt)
+    x = sparse.COO(coords, data, shape=shape, fill_value=dt.type(spec["fill"]), sorted=True, has_duplicates=False)
+    fmt = spec.get("format", "coo")
+    if fmt == "coo":
+        return x
+    if fmt == "gcxs":
+        if spec.get("caxes") is not None and nd >= 2:
+            return sparse.GCXS.from_coo(x, compressed_axes=tuple(spec["caxes"]))
+        return sparse.GCXS.from_coo(x)
+    if fmt == "dok":
+        return sparse.DOK.from_coo(x)
+    raise ValueError(fmt)
+
+
+def spec_dense(spec, dtype="int64"):
+    import numpy as np
+    d = np.full(tuple(spec["shape"]), spec["fill"], dtype=dtype)
+    for c, v in zip(spec["coords"], spec["data"], strict=True):
+        d[tuple(c)] = v
+    return d
+
+
+def spec_coo_lit(spec):
+    """Coq literal `coo Z` of the (canonical) array a spec describes"""
+    return "(mkCOO %s %s %s %s)" % (vlist(spec["shape"]), vlist(spec["coords"], vlist), vlist(spec["data"]), vZ(spec["fill"]))
